@@ -297,8 +297,11 @@ func maxOf(n int, at func(i int) float64) float64 {
 // weight is the documented answer of Weight(u, v); known is false when the
 // documentation leaves the value open.
 func (m *model) weight(u, v int64) (w float64, ok, known bool) {
+	return m.weightOf(m.lines(u, v), u, v)
+}
+
+func (m *model) weightOf(ls []rec, u, v int64) (w float64, ok, known bool) {
 	if m.ki.multi {
-		ls := m.lines(u, v)
 		if len(ls) == 0 {
 			return 0, false, m.ewf == 0
 		}
@@ -307,7 +310,7 @@ func (m *model) weight(u, v int64) (w float64, ok, known bool) {
 	if u == v {
 		return m.self, true, true
 	}
-	if ls := m.lines(u, v); len(ls) > 0 {
+	if len(ls) > 0 {
 		return ls[0].w, true, true
 	}
 	return m.absent, false, true
